@@ -1,5 +1,6 @@
 import SqlcModel.Text.Source
 import SqlcModel.Gen.Untranslatable
+import SqlcModel.Gen.DriverFacts
 /-
 C17 — Diagnostics name a line inside the statement (the `source.LineNumber` part).
 
@@ -9,6 +10,12 @@ white space nor inside a `--` comment, reports that rune's line (1 + number of n
 and a column ≥ 1, and never reports a position before `head`. Multi-byte characters anywhere in the
 file do not matter (this is what the `fix:` commit 2c33658 repaired; the pinned tree compared the
 rune count with the byte offset).
+
+The FILE a diagnostic names: `printFileErr` is read off the source by the translator (`C17_name_site`) and
+`C17_names_the_file` / `C17_component_boundary` show the printed name is the file's path or its path relative
+to the configuration directory, cut only at a path-component boundary — for every directory and every path.
+The correspondence stream places the configuration and the query files in ten different layouts (queries
+below the configuration directory, in siblings whose names extend the directory's name, in dot-directories).
 -/
 set_option linter.unusedSimpArgs false
 namespace Sqlc.C17
@@ -110,6 +117,51 @@ theorem states_line (src : Bytes) : ∀ (pre : List (Nat × Nat)) (i r : Nat) (p
 /-- non-vacuity / regression: a multi-byte character before the statement does not move the line
 (on the pinned tree this evaluated to line 3, column 0) -/
 example : lineNumber (b! "-- é é é é é é\nSELECT nope FROM t;\n") 21 = (2, 1) := by decide
+
+/-! ### which file a diagnostic names -/
+
+/-- `strings.TrimPrefix(file, dir + "/")` -/
+def displayName (dir file : List Char) : List Char :=
+  if (dir ++ ['/']).isPrefixOf file then file.drop (dir.length + 1) else file
+
+/-- the code IS that expression, and the printed line is `name:line:col: message` of the same FileError -/
+theorem C17_name_site :
+    Gen.printFileErrName = "filename := strings.TrimPrefix(fileErr.Filename, dir + \"/\")" ∧
+    Gen.printFileErrFormat = "\"%s:%d:%d: %s\\n\"" ∧
+    Gen.printFileErrArgs = "filename, fileErr.Line, fileErr.Column, fileErr.Err" := by decide
+
+/-- **C17 (file).** Whatever the configuration directory and wherever the query file lives, the printed name
+is the file's own path or that path relative to the configuration directory: joining it back gives the file.
+A prefix that is not cut at a path separator (`db` / `db_queries/a.sql`) is never removed. -/
+theorem C17_names_the_file (dir file : List Char) :
+    displayName dir file = file ∨ dir ++ '/' :: displayName dir file = file := by
+  unfold displayName
+  by_cases h : (dir ++ ['/']).isPrefixOf file = true
+  · right
+    rw [if_pos h]
+    obtain ⟨t, ht⟩ := List.isPrefixOf_iff_prefix.mp h
+    subst ht
+    have : (dir ++ ['/'] ++ t).drop (dir.length + 1) = t := by
+      have : dir.length + 1 = (dir ++ ['/']).length := by simp
+      rw [this, List.drop_left]
+    rw [this]; simp
+  · left; rw [if_neg h]
+
+/-- only a whole leading path component equal to the directory is removed -/
+theorem C17_component_boundary (dir file : List Char) (h : displayName dir file ≠ file) :
+    ∃ rest, file = dir ++ '/' :: rest ∧ displayName dir file = rest := by
+  unfold displayName at h ⊢
+  by_cases hp : (dir ++ ['/']).isPrefixOf file = true
+  · obtain ⟨t, ht⟩ := List.isPrefixOf_iff_prefix.mp hp
+    subst ht
+    refine ⟨t, by simp, ?_⟩
+    rw [if_pos hp]
+    have : dir.length + 1 = (dir ++ ['/']).length := by simp
+    rw [this, List.drop_left]
+  · rw [if_neg hp] at h; exact absurd rfl h
+
+example : displayName "db".toList "db_queries/a.sql".toList = "db_queries/a.sql".toList ∧
+    displayName "db".toList "db/q/a.sql".toList = "q/a.sql".toList := by decide
 
 theorem translator_complete : Gen.untranslatable = [] := by decide
 
